@@ -404,6 +404,20 @@ def run(ctx):
             r2.fail(f"builder:reload {attr}", f"evaluates ({e.exc_name}{e.exc_args})", cf.loc())
     rules.append(builder_input_rule(ctx, "C16", "C16.R9"))
     rules.append(_dump_completeness_rule(ctx))
+    # the dump rewrites every GroupedSection's type to "group" (an expanded `begin loop` block keeps type "loop" in the
+    # live tree): generation must not tell the two apart, or the reloaded survey renders differently
+    from . import c10
+    from .c08 import _take
+    r11 = Rule("C16", "C16.R11", "sections whose type the dump rewrites (loop -> group) are generated alike", floor=1,
+               necessary="generation code that asks for type == 'group' treats the live loop section and its reloaded dump differently")
+    _take(r11, c10.run(ctx), "C10.R2", lambda c: c.startswith("repeat placement[group, nested group and expanded loop"))
+    gts = repo.cls("pyxform.section:GroupedSection").methods.get("to_json_dict")
+    rewrites = gts is not None and any(isinstance(x, ast.Assign) and isinstance(x.targets[0], ast.Subscript) and norm(x.targets[0].slice) in ("'type'", "constants.TYPE", "const.TYPE") for x in walk_own(gts.node))
+    if rewrites:
+        r11.ok("GroupedSection.to_json_dict:type", "the dump writes the section type (the rewrite this rule is about)", gts.loc())
+    else:
+        r11.note("GroupedSection.to_json_dict no longer rewrites the type; the placement obligation still holds on its own")
+    rules.append(r11)
     return rules
 
 
@@ -472,6 +486,54 @@ def _dump_completeness_rule(ctx):
         except Raised as e:
             got = f"raises {e.exc_name}{e.exc_args}"
         r.check(got == want, f"to_json_dict[{desc}]", "the dump lists every child, in order", tjx.loc(), why_fail=f"children in the dump: {got!r}")
+    # what a section leaves out of ITS OWN dump (a group's bind: recorded finding) is not left out of its descendants':
+    # a repeat with logic inside a group, a question whose type has no bind template inside a group, two levels down
+    rcls = repo.cls("pyxform.section:RepeatingSection")
+    mcls = repo.cls("pyxform.question:MultipleChoiceQuestion")
+    icls = repo.cls("pyxform.question:Itemset")
+    opcls = repo.cls("pyxform.question:Option")
+
+    def tree():
+        a = mkel(qcls, name="a", type="text", label="A", bind={"type": "string", "required": "yes"})
+        trig = mkel(qcls, name="t", type="trigger", label="T", bind={"relevant": "${a} = 1"})
+        rep = mkel(rcls, name="r", type="repeat", label="R", bind={"relevant": "${a} != ''"}, control={"jr:count": "3"}, children=[a])
+        inner = mkel(gcls, name="inner", type="group", label="I", control={"appearance": "field-list"}, children=[trig])
+        return mkel(gcls, name="g", type="group", label="G", children=[rep, inner])
+    g = tree()
+    tjg = next(c.methods["to_json_dict"] for c in ctx.consts.interp.mro(g.cls) if "to_json_dict" in c.methods)
+    it = ctx.interp("C16.R10", hooks={"fnname:validate": lambda i, a, k, n: None})
+    it.reset([])
+    try:
+        d = it.call_function(tjg, [g], {}, None, tjg.node)
+    except Raised as e:
+        d = f"raises {e.exc_name}{e.exc_args}"
+    if isinstance(d, dict):
+        kids = {c.get("name"): c for c in d.get("children") or []}
+        rep_d = kids.get("r") or {}
+        inner_d = kids.get("inner") or {}
+        a_d = next(iter(rep_d.get("children") or []), {})
+        t_d = next(iter(inner_d.get("children") or []), {})
+        r.check(rep_d.get("bind") == {"relevant": "${a} != ''"} and rep_d.get("control") == {"jr:count": "3"}, "to_json_dict[repeat with logic inside a group]", "the repeat's bind and control are in the dump", tjg.loc(), why_fail=repr(rep_d)[:200])
+        r.check(a_d.get("bind") == {"type": "string", "required": "yes"}, "to_json_dict[question inside a repeat inside a group]", "the question's bind is in the dump", tjg.loc(), why_fail=repr(a_d)[:200])
+        r.check(t_d.get("bind") == {"relevant": "${a} = 1"}, "to_json_dict[question without a type bind template, two groups down]", "the question's bind is in the dump", tjg.loc(), why_fail=repr(t_d)[:200])
+        r.check(inner_d.get("control") == {"appearance": "field-list"}, "to_json_dict[group inside a group]", "the inner group's control is in the dump", tjg.loc(), why_fail=repr(inner_d)[:200])
+    else:
+        r.fail("to_json_dict[nested sections]", f"evaluates ({d})", tjg.loc())
+    # a select question dumps its own copy of the options whenever it holds a choice list - also the generated table-list
+    # header select, which has `itemset` but no `list_name`
+    for desc, extra in (("select with list_name and itemset", {"list_name": "l", "itemset": "l"}), ("generated select with itemset only (table-list header)", {"itemset": "l"}), ("select with list_name only", {"list_name": "l"})):
+        opts = (mkel(opcls, name="x", label="X"), mkel(opcls, name="y", label={"en": "Y"}))
+        iset = Obj(icls, {"name": "l", "options": opts, "requires_itext": True, "used_by_search": False}, name="itemset")
+        sel = mkel(mcls, name="s", type="select one", label="S", bind={"type": "string"}, choices=iset, **extra)
+        tjs = next(c.methods["to_json_dict"] for c in ctx.consts.interp.mro(sel.cls) if "to_json_dict" in c.methods)
+        it = ctx.interp("C16.R10", hooks={"fnname:validate": lambda i, a, k, n: None})
+        it.reset([])
+        try:
+            d = it.call_function(tjs, [sel], {}, None, tjs.node)
+            got = [c.get("name") for c in (d.get("children") or [])] if isinstance(d, dict) else None
+        except Raised as e:
+            got = f"raises {e.exc_name}{e.exc_args}"
+        r.check(got == ["x", "y"], f"to_json_dict[{desc}]", "the select's dump lists its options (the builder re-attaches the survey's list only when the dump carries them)", tjs.loc(), why_fail=f"children in the dump: {got!r}")
     return r
 
 
